@@ -38,9 +38,6 @@ Qed.
 
 (* ------------------------------------------------------------ well-formed strings *)
 
-Definition valid_cp (x : N) : Prop := 0 < x < 2147483648.
-Definition encode_all (xs : list N) : list N := flat_map utf8_table xs.
-
 Lemma encode_all_bytes_ok xs : Forall valid_cp xs -> bytes_ok (encode_all xs).
 Proof.
   induction 1 as [|x xs Hx _ IH]; [constructor|].
